@@ -248,9 +248,93 @@ def _lower_compatible(le, ld):
     return ld <= le
 
 
+def check_wrapping_distance(ctx, F):
+    """`lower`, `lower + range` and `point` live in State-bit *wrapping* arithmetic (the interval may straddle 2^BITS): the only
+    meaningful relation between the decoder's `point` and `lower` is the wrapping distance point (-) lower.  Any ordering
+    comparison that has point on one side and lower on the other, or a non-wrapping difference of the two, is wrong for
+    wrapped intervals (it rejects valid states or accepts invalid ones)."""
+    key = 'R4/wrapping-distance/' + anchors.RDEC
+    role = 'point and lower are only related through the wrapping distance point (-) lower'
+    n_sites = 0
+    bad = None
+    is_point = lambda x: isinstance(x, tuple) and x and ((x[0] == 'in' and x[1][-1] == ('f', 'point')) or x == ('arg', 3))
+    is_lower = lambda x: isinstance(x, tuple) and x and x[0] == 'in' and x[1][-1] == ('f', 'lower')
+    for b in F.bodies:
+        if b.promoted is not None or b.self_adt != anchors.RDEC or b.dk != 'AssocFn' or '::tests::' in b.defpath:
+            continue
+        if b.name not in ('from_raw_parts', 'maybe_exhausted', 'decode_symbol', 'seek'):
+            continue
+        ev, paths = rules.evaluate(b)
+        ctx.touch(b)
+        pt = is_point if b.name == 'from_raw_parts' else (lambda x: isinstance(x, tuple) and x and x[0] == 'in' and x[1][-1] == ('f', 'point'))
+        for r in paths or []:
+            terms = [t for t, v, _ in r.preds] + ([r.ret] if r.ret is not None else []) + [e['result'] for e in r.events if e['kind'] == 'call']
+            for t in terms:
+                for x in sym.subterms(t):
+                    if not (isinstance(x, tuple) and x and x[0] == 'bin'):
+                        continue
+                    op = x[1].split('.')[0]
+                    a, c = x[2], x[3]
+                    direct = (pt(a) and is_lower(c)) or (is_lower(a) and pt(c))
+                    if not direct:
+                        continue
+                    n_sites += 1
+                    if op in ('Lt', 'Le', 'Gt', 'Ge'):
+                        bad = (b, '`%s` compares point and lower directly' % sym.show(x)[:80])
+                    elif op == 'Sub' and not x[1].endswith('.w'):
+                        bad = (b, '`%s` is a non-wrapping difference of point and lower' % sym.show(x)[:80])
+    if bad:
+        ctx.bad('R4', role, bad[0].defpath, bad[1] + ': the coder interval [lower, lower + range) may wrap around 2^State::BITS, and then a valid point is numerically below lower', key=key, loc=rules.loc(bad[0]))
+    elif n_sites < 3:
+        ctx.unresolved('R4', role, anchors.RDEC, 'only %d expressions relate point and lower (3 confirmed by reading: from_raw_parts, decode_symbol, maybe_exhausted)' % n_sites, key=key)
+    else:
+        ctx.ok('R4', role, anchors.RDEC, '%d expressions relate point and lower, all through wrapping_sub' % n_sites, key=key)
+
+
+def check_sealing_conversions(ctx, F):
+    """Every `From<RangeEncoder<..>>` conversion hands out the words of a *sealed* stream: it reaches seal() through the
+    call graph (via into_compressed / into_decoder), never the raw parts."""
+    parts = anchors.range_encoder_parts(F)
+    seal = parts.get('seal')
+    key0 = 'R7/sealing-conversion/'
+    role = 'a conversion out of a RangeEncoder yields the sealed stream'
+    if seal is None:
+        return ctx.unresolved('R7', role, anchors.RENC, 'seal not resolved', key=key0 + 'anchor')
+    n = 0
+    for b in F.bodies:
+        if b.promoted is not None or b.name != 'from' or b.impl_trait is None or not b.impl_trait.startswith('core::convert::From') or '::tests::' in b.defpath:
+            continue
+        if b.arg_count != 1 or not F.ty_s(b.local_ty(1)).startswith(anchors.RENC + '<'):
+            continue
+        n += 1
+        ctx.touch(b)
+        # reachability of seal within 3 call levels
+        seen, frontier, found = set(), [b], False
+        for _ in range(3):
+            nxt = []
+            for x in frontier:
+                for cb, blk, t in anchors.local_callees(F, x):
+                    if cb.defpath == seal.defpath:
+                        found = True
+                    if cb.defpath not in seen:
+                        seen.add(cb.defpath)
+                        nxt.append(cb)
+            frontier = nxt
+        key = key0 + b.defpath
+        if found:
+            ctx.ok('R7', role, b.defpath, 'reaches seal() through %s' % ', '.join(sorted(x.rsplit('::', 1)[-1] for x in seen if x != seal.defpath))[:120], key=key)
+        else:
+            ctx.bad('R7', role, b.defpath, 'the conversion never reaches seal() (it calls %s): the returned words lack the final point words and any held-back words, so they do not decode to the encoded symbols' % (
+                ', '.join(sorted(x.rsplit('::', 1)[-1] for x in seen)) or 'nothing'), key=key, loc=rules.loc(b))
+    if n < 2:
+        ctx.unresolved('R7', role, anchors.RENC, 'only %d From<RangeEncoder> conversions found (2 confirmed by reading)' % n, key=key0 + 'floor')
+
+
 def run(ctx):
     F = ctx.F
     check_reset(ctx, F)
+    check_wrapping_distance(ctx, F)
+    check_sealing_conversions(ctx, F)
     c18.check_sentinels(ctx, F)
     check_flush_siblings(ctx, F)
     c08.check_encoder_guard(ctx, F)
